@@ -256,7 +256,7 @@ fn enum_main_code_block(input: &Enum, ctx: &ImplContext) -> TokenStream {
     }
 }
 
-fn struct_init_block<'a>(input: &'a Struct, ctx: &ImplContext) -> TokenStream {
+fn struct_init_block<'a>(input: &'a Struct, ctx: &'a ImplContext) -> TokenStream {
     if (!ctx.kind.is_from() && ctx.struct_attr.type_hint == TypeHint::Unit) || (ctx.kind.is_from() && input.unit) {
         return TokenStream::new();
     }
@@ -287,8 +287,8 @@ fn struct_init_block<'a>(input: &'a Struct, ctx: &ImplContext) -> TokenStream {
             fields.into_iter()
         }));
 
-    fields.extend(input.attrs.ghosts_attrs.iter()
-        .flat_map(|x| &x.attr.ghost_data)
+    fields.extend(input.attrs.ghosts_attr(&ctx.struct_attr.ty, &ctx.kind).iter()
+        .flat_map(|x| &x.ghost_data)
         .filter_map(|x| {
             let res = make_tuple(x.get_child_path_str(None).into(), FieldData::GhostData(x));
             res.1.then_some(res.0)
